@@ -1,6 +1,9 @@
 //! `sig-gate` (C04): `Package::get_function::<F>(name)` is `Ok` exactly for the
 //! mapped signature. Exhaustive over the catalogue (script term x requested term)
-//! plus arity, transposition, filtermap, name and registered-type sub-spaces.
+//! plus arity, transposition, filtermap, name and registered-type sub-spaces, and
+//! filtermaps whose payload types are inferred from un-annotated literals (the
+//! documented defaults i32 / f64 at depth 0..2 of Option / List / Result, against
+//! the near misses i64, u32, f32 and int-vs-float at the literal's position).
 //!
 //! Oracle: index equality of catalogue terms (they are pairwise structurally
 //! distinct), arity equality, the filtermap rule, name existence. Every handle that
@@ -23,7 +26,7 @@ pub struct Gate {
     rt: Runtime<NoCtx>,
 }
 
-const EXTRA: [&str; 5] = ["arity", "transpose", "filtermap", "names", "registered"];
+const EXTRA: [&str; 8] = ["arity", "transpose", "filtermap", "names", "registered", "fmlit-accept", "fmlit-reject", "fmlit-both"];
 
 /// A handle that exists only to say "the request was accepted".
 struct Never;
@@ -184,6 +187,436 @@ impl<A: Pay, R: Pay> Handle for HFm<A, R> {
         drop(r);
         m.finish(route, k, hostev);
     }
+}
+
+// --- filtermaps whose payload types are inferred from un-annotated literals -----
+//
+// The payload types of a filtermap are the only inferred pieces of a signature. A
+// literal that nothing else pins down is an `i32` (integer literal) or an `f64`
+// (float literal) by the documentation ("If we don't specify the type we get i32 /
+// f64"), at whatever depth of Option / List / Result it sits. The true signature is
+// computed here by a small unifier of its own (`Pt`), not by asking roto.
+
+/// payload expression
+#[derive(Clone, Debug)]
+enum Le {
+    Int(i64),
+    Flt(f64),
+    /// parameter `x: i64`
+    X,
+    /// parameter `y: f32`
+    Y,
+    Some(Box<Le>),
+    None,
+    List(Vec<Le>),
+    Ok(Box<Le>),
+    Err(Box<Le>),
+}
+
+/// partial type of a payload expression
+#[derive(Clone, Debug, PartialEq)]
+enum Pt {
+    Unknown,
+    IntLit,
+    FltLit,
+    Leaf(&'static str),
+    Opt(Box<Pt>),
+    List(Box<Pt>),
+    Res(Box<Pt>, Box<Pt>),
+}
+
+fn unify(a: &Pt, b: &Pt) -> Pt {
+    use Pt::*;
+    match (a, b) {
+        (Unknown, x) | (x, Unknown) => x.clone(),
+        (IntLit, IntLit) => IntLit,
+        (FltLit, FltLit) => FltLit,
+        (IntLit, Leaf(n)) | (Leaf(n), IntLit) if super::int_of(n).is_some() => Leaf(n),
+        (FltLit, Leaf(n)) | (Leaf(n), FltLit) if n.starts_with('f') => Leaf(n),
+        (Leaf(n), Leaf(m)) if n == m => Leaf(n),
+        (Opt(x), Opt(y)) => Opt(Box::new(unify(x, y))),
+        (List(x), List(y)) => List(Box::new(unify(x, y))),
+        (Res(a1, b1), Res(a2, b2)) => Res(Box::new(unify(a1, a2)), Box::new(unify(b1, b2))),
+        _ => panic!("harness: literal filtermap spec does not type: {a:?} vs {b:?}"),
+    }
+}
+
+/// the documented defaults for what is still open
+fn defaulted(p: &Pt) -> Desc {
+    match p {
+        Pt::Unknown => panic!("harness: literal filtermap spec leaves a type open"),
+        Pt::IntLit => Desc::Leaf("i32"),
+        Pt::FltLit => Desc::Leaf("f64"),
+        Pt::Leaf(n) => Desc::Leaf(n),
+        Pt::Opt(x) => Desc::Opt(Box::new(defaulted(x))),
+        Pt::List(x) => Desc::List(Box::new(defaulted(x))),
+        Pt::Res(a, b) => Desc::Res(Box::new(defaulted(a)), Box::new(defaulted(b))),
+    }
+}
+
+/// value of a payload as the oracle sees it
+#[derive(Clone, Debug, PartialEq)]
+enum Lv {
+    Unit,
+    I(i128),
+    F32(u32),
+    F64(u64),
+    Some(Box<Lv>),
+    None,
+    List(Vec<Lv>),
+    Ok(Box<Lv>),
+    Err(Box<Lv>),
+}
+
+fn lv32(v: f32) -> Lv {
+    Lv::F32(if v.is_nan() { f32::NAN.to_bits() } else { v.to_bits() })
+}
+fn lv64(v: f64) -> Lv {
+    Lv::F64(if v.is_nan() { f64::NAN.to_bits() } else { v.to_bits() })
+}
+
+impl Le {
+    fn expr(&self) -> String {
+        match self {
+            Le::Int(v) => format!("{v}"),
+            Le::Flt(v) => format!("{v:?}"),
+            Le::X => "x".into(),
+            Le::Y => "y".into(),
+            Le::Some(e) => format!("Some({})", e.expr()),
+            Le::None => "None".into(),
+            Le::List(es) => format!("[{}]", es.iter().map(|e| e.expr()).collect::<Vec<_>>().join(", ")),
+            Le::Ok(e) => format!("Ok({})", e.expr()),
+            Le::Err(e) => format!("Err({})", e.expr()),
+        }
+    }
+    fn pt(&self) -> Pt {
+        match self {
+            Le::Int(_) => Pt::IntLit,
+            Le::Flt(_) => Pt::FltLit,
+            Le::X => Pt::Leaf("i64"),
+            Le::Y => Pt::Leaf("f32"),
+            Le::Some(e) => Pt::Opt(Box::new(e.pt())),
+            Le::None => Pt::Opt(Box::new(Pt::Unknown)),
+            Le::List(es) => Pt::List(Box::new(es.iter().fold(Pt::Unknown, |a, e| unify(&a, &e.pt())))),
+            Le::Ok(e) => Pt::Res(Box::new(e.pt()), Box::new(Pt::Unknown)),
+            Le::Err(e) => Pt::Res(Box::new(Pt::Unknown), Box::new(e.pt())),
+        }
+    }
+    /// nesting depth of the deepest literal
+    fn lit_depth(&self) -> Option<usize> {
+        match self {
+            Le::Int(_) | Le::Flt(_) => Some(0),
+            Le::X | Le::Y | Le::None => None,
+            Le::Some(e) | Le::Ok(e) | Le::Err(e) => e.lit_depth().map(|d| d + 1),
+            Le::List(es) => es.iter().filter_map(|e| e.lit_depth()).max().map(|d| d + 1),
+        }
+    }
+    fn eval(&self, d: &Desc, x: i64, y: f32) -> Lv {
+        match (self, d) {
+            (Le::Int(v), Desc::Leaf(_)) => Lv::I(*v as i128),
+            (Le::X, Desc::Leaf(_)) => Lv::I(x as i128),
+            (Le::Flt(v), Desc::Leaf("f32")) => lv32(*v as f32),
+            (Le::Flt(v), Desc::Leaf(_)) => lv64(*v),
+            (Le::Y, Desc::Leaf(_)) => lv32(y),
+            (Le::Some(e), Desc::Opt(d)) => Lv::Some(Box::new(e.eval(d, x, y))),
+            (Le::None, Desc::Opt(_)) => Lv::None,
+            (Le::List(es), Desc::List(d)) => Lv::List(es.iter().map(|e| e.eval(d, x, y)).collect()),
+            (Le::Ok(e), Desc::Res(a, _)) => Lv::Ok(Box::new(e.eval(a, x, y))),
+            (Le::Err(e), Desc::Res(_, b)) => Lv::Err(Box::new(e.eval(b, x, y))),
+            _ => panic!("harness: literal filtermap spec and its type disagree"),
+        }
+    }
+}
+
+/// what the Rust side received, in the oracle's terms
+trait Lit: Term {
+    fn lv(&self) -> Lv;
+}
+impl Lit for () {
+    fn lv(&self) -> Lv { Lv::Unit }
+}
+macro_rules! lit_int {
+    ($($t:ty),*) => {$( impl Lit for $t { fn lv(&self) -> Lv { Lv::I(*self as i128) } } )*};
+}
+lit_int!(i32, i64, u32);
+impl Lit for f32 {
+    fn lv(&self) -> Lv { lv32(*self) }
+}
+impl Lit for f64 {
+    fn lv(&self) -> Lv { lv64(*self) }
+}
+impl<T: Lit> Lit for Option<T> {
+    fn lv(&self) -> Lv {
+        match self {
+            Some(x) => Lv::Some(Box::new(x.lv())),
+            None => Lv::None,
+        }
+    }
+}
+impl<T: Lit> Lit for List<T> {
+    fn lv(&self) -> Lv { Lv::List(self.to_vec().iter().map(|x| x.lv()).collect()) }
+}
+impl<A: Lit, B: Lit> Lit for Result<A, B> {
+    fn lv(&self) -> Lv {
+        match self {
+            Ok(x) => Lv::Ok(Box::new(x.lv())),
+            Err(x) => Lv::Err(Box::new(x.lv())),
+        }
+    }
+}
+
+#[derive(Clone, Copy, Debug, PartialEq, Eq)]
+enum LitSide {
+    Accept,
+    Reject,
+    Both,
+}
+
+/// one filtermap: `alts[i]` runs for `c == i` (the last one for every larger `c`)
+struct FmLit {
+    name: String,
+    /// (accepts, payload)
+    alts: Vec<(bool, Option<Le>)>,
+    acc: Desc,
+    rej: Desc,
+    shape: String,
+    depth: usize,
+}
+
+impl FmLit {
+    fn new(name: String, shape: String, alts: Vec<(bool, Option<Le>)>) -> FmLit {
+        let side = |want: bool| {
+            let mut pt = None;
+            for (a, e) in &alts {
+                if *a == want {
+                    if let Some(e) = e {
+                        pt = Some(match pt {
+                            None => e.pt(),
+                            Some(p) => unify(&p, &e.pt()),
+                        });
+                    }
+                }
+            }
+            match pt {
+                Some(p) => defaulted(&p),
+                // never used, or used without a payload
+                None => Desc::Leaf("()"),
+            }
+        };
+        let depth = alts.iter().filter_map(|(_, e)| e.as_ref().and_then(|e| e.lit_depth())).max().unwrap_or(0);
+        FmLit { acc: side(true), rej: side(false), name, alts, shape, depth }
+    }
+    fn source(&self) -> String {
+        let stmt = |(a, e): &(bool, Option<Le>)| format!("{}{}", if *a { "accept" } else { "reject" }, e.as_ref().map(|e| format!(" {}", e.expr())).unwrap_or_default());
+        let mut body = String::new();
+        let n = self.alts.len();
+        for (i, alt) in self.alts.iter().enumerate() {
+            if n == 1 {
+                body = format!("    {}\n", stmt(alt));
+            } else if i == 0 {
+                body += &format!("    if c == 0 {{\n        {}\n    }}", stmt(alt));
+            } else if i + 1 < n {
+                body += &format!(" else if c == {i} {{\n        {}\n    }}", stmt(alt));
+            } else {
+                body += &format!(" else {{\n        {}\n    }}\n", stmt(alt));
+            }
+        }
+        format!("filtermap {}(c: u32, x: i64, y: f32) {{\n{body}}}\n\n", self.name)
+    }
+    fn expect(&self, c: u32, x: i64, y: f32) -> (bool, Lv) {
+        let (a, e) = &self.alts[(c as usize).min(self.alts.len() - 1)];
+        let d = if *a { &self.acc } else { &self.rej };
+        (*a, e.as_ref().map(|e| e.eval(d, x, y)).unwrap_or(Lv::Unit))
+    }
+}
+
+struct HLit<A: Lit, R: Lit>(TypedFunc<NoCtx, fn(u32, i64, f32) -> Verdict<A, R>>, std::rc::Rc<FmLit>);
+impl<A: Lit, R: Lit> Handle for HLit<A, R> {
+    fn call(&self, k: usize, m: &mut Mon, route: &str, hostev: &[&'static str]) {
+        m.begin(k);
+        let c = (k % (self.1.alts.len() + 1)) as u32;
+        let x: i64 = value(m.seed, k);
+        let y: f32 = value(m.seed, k);
+        let want = self.1.expect(c, x, y);
+        let r = self.0.call(c, x, y);
+        let got = match &r {
+            Verdict::Accept(a) => (true, a.lv()),
+            Verdict::Reject(r) => (false, r.lv()),
+        };
+        m.checks += 1;
+        if want != got {
+            m.fail(
+                format!("boundary:{route}@{}", self.1.shape),
+                format!("{route}: filtermap {} returned {got:?} for c = {c}, expected {want:?}", self.1.name),
+                J::obj().set("route", route).set("k", k).set("seed", m.seed).set("filtermap", self.1.source()),
+            );
+        }
+        drop(r);
+        m.finish(route, k, hostev);
+    }
+}
+
+struct LitReq {
+    acc: Desc,
+    rej: Desc,
+    get: fn(&mut Package<NoCtx>, &std::rc::Rc<FmLit>) -> Got,
+}
+
+fn lit_get<A: Lit, R: Lit>(pkg: &mut Package<NoCtx>, spec: &std::rc::Rc<FmLit>) -> Got {
+    got(catch(|| pkg.get_function::<fn(u32, i64, f32) -> Verdict<A, R>>(&spec.name)), |f| Box::new(HLit::<A, R>(f, spec.clone())))
+}
+
+fn lit_req<A: Lit, R: Lit>() -> LitReq {
+    LitReq { acc: A::desc(), rej: R::desc(), get: lit_get::<A, R> }
+}
+
+/// The requested payload types: every wrapper up to depth 2 over the documented
+/// default and its near misses (width, signedness, float width, int-vs-float).
+mod lit_tables {
+    use super::*;
+
+    macro_rules! one_side {
+        ($v:ident, $($p:ty),* $(,)?) => {$( $v.push(lit_req::<$p, ()>()); $v.push(lit_req::<(), $p>()); )*};
+    }
+    macro_rules! wrappers {
+        ($v:ident, $($x:ty),*) => {$(
+            one_side!($v, $x, Option<$x>, List<$x>, Option<List<$x>>, List<Option<$x>>, List<List<$x>>, Option<Option<$x>>);
+        )*};
+    }
+    macro_rules! results {
+        ($v:ident, $(($x:ty, $y:ty)),*) => {$(
+            one_side!($v, Result<$x, $y>, List<Result<$x, $y>>, Option<Result<$x, $y>>);
+        )*};
+    }
+    macro_rules! both {
+        ($v:ident, $(($x:ty, $y:ty)),*) => {$(
+            $v.push(lit_req::<$x, $y>());
+            $v.push(lit_req::<Option<$x>, List<$y>>());
+            $v.push(lit_req::<List<$x>, Option<List<$y>>>());
+        )*};
+    }
+
+    pub fn ints(v: &mut Vec<LitReq>) {
+        wrappers!(v, i32, i64, u32);
+    }
+    pub fn floats(v: &mut Vec<LitReq>) {
+        wrappers!(v, f64, f32);
+    }
+    pub fn results(v: &mut Vec<LitReq>) {
+        results!(v, (i32, f64), (i64, f64), (i32, f32), (f64, i32), (u32, f64));
+    }
+    pub fn both(v: &mut Vec<LitReq>) {
+        both!(v, (i32, f64), (i64, f64), (i32, f32), (u32, f64), (i32, i32), (f64, f64), (f64, i32));
+    }
+}
+
+fn lit_requests() -> Vec<LitReq> {
+    let mut v = Vec::new();
+    lit_tables::ints(&mut v);
+    lit_tables::floats(&mut v);
+    lit_tables::results(&mut v);
+    lit_tables::both(&mut v);
+    v.push(lit_req::<(), ()>());
+    v
+}
+
+/// what stands at a leaf of a payload shape
+#[derive(Clone, Copy, Debug, PartialEq, Eq)]
+enum Lk {
+    /// integer literal
+    I,
+    /// float literal
+    F,
+    /// integer literal next to `x: i64`
+    PX,
+    /// float literal next to `y: f32`
+    PY,
+}
+
+impl Lk {
+    fn tag(self) -> &'static str {
+        match self {
+            Lk::I => "int",
+            Lk::F => "float",
+            Lk::PX => "int-pinned-i64",
+            Lk::PY => "float-pinned-f32",
+        }
+    }
+}
+
+/// source of leaves: literals with fresh values; in the pinned kinds every second
+/// leaf is the typed parameter
+struct Leaves<'a> {
+    rng: &'a mut Rng,
+    n: usize,
+}
+
+impl Leaves<'_> {
+    fn int(&mut self) -> Le {
+        // no `-2147483648`: the literal without its sign does not fit an i32
+        Le::Int(match self.rng.below(5) {
+            0 => self.rng.range(-3, 4),
+            1 => *self.rng.pick(&[i32::MAX as i64, -(i32::MAX as i64), 65536, -32769, 255, 128, -129]),
+            _ => self.rng.range(-(i32::MAX as i64), i32::MAX as i64),
+        })
+    }
+    fn flt(&mut self) -> Le {
+        // multiples of 1/8 below 2^20: exact in f32 and f64, printed with a `.`
+        Le::Flt(self.rng.range(-(1 << 23), 1 << 23) as f64 / 8.0)
+    }
+    fn leaf(&mut self, k: Lk) -> Le {
+        self.n += 1;
+        match k {
+            Lk::I => self.int(),
+            Lk::F => self.flt(),
+            Lk::PX if self.n % 2 == 1 => Le::X,
+            Lk::PX => self.int(),
+            Lk::PY if self.n % 2 == 1 => Le::Y,
+            Lk::PY => self.flt(),
+        }
+    }
+}
+
+const LIT_SHAPES: [&str; 12] =
+    ["L", "Some(L)", "None|Some(L)", "[L,L,L]", "[]|[L]", "Some([L])", "[Some(L)]", "[None,Some(L)]", "[[L,L],[L]]", "Some(Some(L))", "Some(None)|Some(Some(L))|None", "None|Some([])|Some([L,L])"];
+const LIT_RES_SHAPES: [&str; 3] = ["Ok(L)|Err(M)", "[Ok(L),Err(M)]", "Some(Ok(L))|Some(Err(M))|None"];
+
+/// the alternatives of one side for a shape
+fn lit_shape(shape: &str, k: Lk, k2: Lk, lv: &mut Leaves) -> Vec<Le> {
+    let some = |e: Le| Le::Some(Box::new(e));
+    let l = |lv: &mut Leaves| lv.leaf(k);
+    match shape {
+        "L" => vec![l(lv)],
+        "Some(L)" => vec![some(l(lv))],
+        "None|Some(L)" => vec![Le::None, some(l(lv))],
+        "[L,L,L]" => vec![Le::List(vec![l(lv), l(lv), l(lv)])],
+        "[]|[L]" => vec![Le::List(vec![]), Le::List(vec![l(lv)])],
+        "Some([L])" => vec![some(Le::List(vec![l(lv)]))],
+        "[Some(L)]" => vec![Le::List(vec![some(l(lv))])],
+        "[None,Some(L)]" => vec![Le::List(vec![Le::None, some(l(lv))])],
+        "[[L,L],[L]]" => vec![Le::List(vec![Le::List(vec![l(lv), l(lv)]), Le::List(vec![l(lv)])])],
+        "Some(Some(L))" => vec![some(some(l(lv)))],
+        "Some(None)|Some(Some(L))|None" => vec![some(Le::None), some(some(l(lv))), Le::None],
+        "None|Some([])|Some([L,L])" => vec![Le::None, some(Le::List(vec![])), some(Le::List(vec![l(lv), l(lv)]))],
+        "Ok(L)|Err(M)" => vec![Le::Ok(Box::new(l(lv))), Le::Err(Box::new(lv.leaf(k2)))],
+        "[Ok(L),Err(M)]" => vec![Le::List(vec![Le::Ok(Box::new(l(lv))), Le::Err(Box::new(lv.leaf(k2)))])],
+        "Some(Ok(L))|Some(Err(M))|None" => vec![some(Le::Ok(Box::new(l(lv)))), some(Le::Err(Box::new(lv.leaf(k2)))), Le::None],
+        _ => panic!("harness: unknown literal shape {shape}"),
+    }
+}
+
+/// Alternatives of one side: in the pinned kinds the shape is written twice, so that
+/// a shape with a single leaf has the parameter in one alternative and the literal
+/// in the other.
+fn lit_side(shape: &str, k: Lk, k2: Lk, rng: &mut Rng) -> Vec<Le> {
+    let mut lv = Leaves { rng, n: 0 };
+    let mut v = lit_shape(shape, k, k2, &mut lv);
+    if matches!(k, Lk::PX | Lk::PY) || matches!(k2, Lk::PX | Lk::PY) {
+        // the second time the literal stands where the parameter stood
+        lv.n = 1;
+        v.extend(lit_shape(shape, k, k2, &mut lv));
+    }
+    v
 }
 
 // --- an unregistered type -----------------------------------------------------
@@ -468,6 +901,100 @@ impl Gate {
         out.sample = Some(J::obj().set("kind", "filtermap").set("source", src));
     }
 
+    /// Filtermaps whose payload types come from un-annotated literals only, at
+    /// depth 0..2 of Option / List / Result, on the accept side, the reject side or
+    /// both: retrievable under the documented defaults (and callable with the value
+    /// written in the script), refused under every near miss and every other shape.
+    fn fmlit(&self, side: LitSide, out: &mut CaseOut, args: &Args) {
+        let mut rng = Rng::new(args.seed ^ 0x66_6d_6c_69_74);
+        let mut specs: Vec<std::rc::Rc<FmLit>> = Vec::new();
+        let mut add = |shape: String, alts: Vec<(bool, Option<Le>)>| {
+            let name = format!("fl_{}", specs.len());
+            specs.push(std::rc::Rc::new(FmLit::new(name, shape, alts)));
+        };
+        match side {
+            LitSide::Accept | LitSide::Reject => {
+                let acc = side == LitSide::Accept;
+                let mut one = |shape: &str, k: Lk, k2: Lk, tag: String, rng: &mut Rng| {
+                    // with and without a use of the other side (which has no payload)
+                    for other in [false, true] {
+                        let mut alts: Vec<(bool, Option<Le>)> = lit_side(shape, k, k2, rng).into_iter().map(|e| (acc, Some(e))).collect();
+                        if other {
+                            alts.insert(alts.len() / 2, (!acc, None));
+                        }
+                        add(format!("{}={shape}:{tag}{}", if acc { "accept" } else { "reject" }, if other { ":other-side-bare" } else { "" }), alts);
+                    }
+                };
+                for k in [Lk::I, Lk::F, Lk::PX, Lk::PY] {
+                    for shape in LIT_SHAPES {
+                        one(shape, k, k, k.tag().to_string(), &mut rng);
+                    }
+                }
+                for (k, k2) in [(Lk::I, Lk::F), (Lk::F, Lk::I), (Lk::PX, Lk::F), (Lk::I, Lk::PY)] {
+                    for shape in LIT_RES_SHAPES {
+                        one(shape, k, k2, format!("{},{}", k.tag(), k2.tag()), &mut rng);
+                    }
+                }
+            }
+            LitSide::Both => {
+                for (sa, sr) in [("L", "L"), ("None|Some(L)", "[L,L,L]"), ("[]|[L]", "None|Some([])|Some([L,L])"), ("Some(L)", "[L,L,L]"), ("[L,L,L]", "Some([L])")] {
+                    for (ka, kr) in [(Lk::I, Lk::F), (Lk::PX, Lk::F), (Lk::I, Lk::PY), (Lk::I, Lk::I), (Lk::F, Lk::F), (Lk::F, Lk::I)] {
+                        let a = lit_side(sa, ka, ka, &mut rng);
+                        let r = lit_side(sr, kr, kr, &mut rng);
+                        // interleave the two sides
+                        let mut alts = Vec::new();
+                        let (mut a, mut r) = (a.into_iter(), r.into_iter());
+                        loop {
+                            let (x, y) = (a.next(), r.next());
+                            if x.is_none() && y.is_none() {
+                                break;
+                            }
+                            alts.extend(x.map(|e| (true, Some(e))));
+                            alts.extend(y.map(|e| (false, Some(e))));
+                        }
+                        add(format!("accept={sa}:{},reject={sr}:{}", ka.tag(), kr.tag()), alts);
+                    }
+                }
+            }
+        }
+        let src: String = specs.iter().map(|s| s.source()).collect();
+        out.hash = hash_str(&src);
+        let what = format!("fmlit-{}", format!("{side:?}").to_lowercase());
+        let Some(mut pkg) = self.compile(&src, out, &what) else { return };
+        let mut m = Mon::new(args.seed, "filtermap-literals", false);
+        let reqs = lit_requests();
+        let mut rows = Vec::new();
+        for spec in &specs {
+            let truth = Desc::Verd(Box::new(spec.acc.clone()), Box::new(spec.rej.clone()));
+            out.tags.push(format!("gate:fmlit:{}", spec.shape));
+            out.tags.push(format!("gate:fmlit-depth:{}", spec.depth));
+            let mut hit = false;
+            for r in &reqs {
+                let d = Desc::Verd(Box::new(r.acc.clone()), Box::new(r.rej.clone()));
+                let same = d == truth;
+                hit |= same;
+                let g = (r.get)(&mut pkg, spec);
+                let class = format!("fmlit-depth{}/{}", spec.depth, classify(&truth, &d));
+                // leaf-level near misses by class; a request of another shape is one tag
+                let coarse = super::classify_coarse(&truth, &d);
+                let coarse = coarse.replace("int-vs-float", "int/float");
+                let coarse = if coarse.contains("-vs-") || coarse.contains("-layer-") { "other-shape" } else { coarse.as_str() };
+                out.tags.push(format!("gate:fmlit/{coarse}:{}", g.kind()));
+                if rows.len() < 8 && (same || rows.len() < 2) {
+                    rows.push(J::obj().set("filtermap", spec.source()).set("true_type", truth.roto()).set("requested", d.roto()).set("result", g.kind()));
+                }
+                let what = J::obj().set("shape", spec.shape.as_str()).set("true_type", truth.roto()).set("requested", d.roto()).set("filtermap", spec.source());
+                self.judge(out, &mut m, g, same, &class, what, "gate/filtermap-literals", &[], 3 * (spec.alts.len() + 1));
+            }
+            // the catalogue of requests must contain the true signature of every spec
+            assert!(hit, "harness: no request for the true type {} of {}", truth.roto(), spec.shape);
+        }
+        out.count("fmlit_filtermaps", specs.len() as u64);
+        out.count("fmlit_requests", (specs.len() * reqs.len()) as u64);
+        self.flush(out, m);
+        out.sample = Some(J::obj().set("kind", what.as_str()).set("source", src).set("requests", J::Arr(rows)));
+    }
+
     fn names(&self, out: &mut CaseOut, args: &Args) {
         let src = "\
 record Rec { a: String, b: u8 }
@@ -717,6 +1244,9 @@ impl Family for Gate {
                 Some(&"filtermap") => self.filtermap(&mut out, args),
                 Some(&"names") => self.names(&mut out, args),
                 Some(&"registered") => self.registered(&mut out, args),
+                Some(&"fmlit-accept") => self.fmlit(LitSide::Accept, &mut out, args),
+                Some(&"fmlit-reject") => self.fmlit(LitSide::Reject, &mut out, args),
+                Some(&"fmlit-both") => self.fmlit(LitSide::Both, &mut out, args),
                 _ => out.skipped = Some("no-such-case".into()),
             }
             if let Some(e) = EXTRA.get(k - n) {
